@@ -2,6 +2,8 @@
 //! GetNetworkRecord arm of cmd.rs, GetRecordCfg, get_quorum_value) over symbolic peer and
 //! content identities.
 #![allow(dead_code, unused_imports, unused_variables, unused_mut, clippy::all)]
+// path-qualified uses (`tracing::warn!(..)`) in transplanted code resolve to no-op macros
+extern crate noop_tracing as tracing;
 macro_rules! trace { ($($t:tt)*) => { if false { let _ = format!($($t)*); } } }
 macro_rules! debug { ($($t:tt)*) => { if false { let _ = format!($($t)*); } } }
 macro_rules! info { ($($t:tt)*) => { if false { let _ = format!($($t)*); } } }
